@@ -1,4 +1,5 @@
 import Pyunicorn.Lemmas.Memo
+import Pyunicorn.Lemmas.MemoNested
 import Pyunicorn.Generated.StructC01
 /-!
 # C01 — Results always reflect the object's current state (cache coherence)
@@ -72,6 +73,96 @@ example : (run toyBad State.init [.query 0 0, .mutate 0, .query 0 0])[2]? =
     some (some ([0, 0], [0, 1])) := by decide
 example : offending toyBad = [(0, 0)] := by decide
 
+/-! ### Round 3: the methods as written — nested cached calls, argument patterns, bounded caches
+
+`nrun` executes a history on the machine of `Model/MemoNested.lean`: a cached method reads
+fields itself and calls other cached methods through *their* caches (each with its own key);
+what it reads and calls depends on the argument pattern; every insertion trims the caches as
+`functools.lru_cache(maxsize)` does and a hit moves the entry to the front. -/
+
+/-- **Coherence of the nested machine.**  If the table has no cycle of cached methods and the
+key of every method covers, for every argument pattern and every mutator, the *closure* of
+what the call reads (its own reads and those of all cached methods it reaches), then after
+every history of mutators, queries (any method, any argument pattern, nested calls served
+from whatever the callees' caches hold) and evictions (explicit ones and those of the bounded
+lru caches), every query returns exactly what a newly constructed object (empty caches)
+computes from the current fields. -/
+theorem ncoherent_of_wf_from (t : NTable) (hwf : nwf t = true) (ops : List Op) (s : State)
+    (h : NInv t s) : AllCoherent (nrun t s ops) := by
+  induction ops generalizing s with
+  | nil => intro o ho; simp [nrun] at ho
+  | cons op ops ih =>
+    obtain ⟨hinv, hout⟩ := ninv_step t hwf s op h
+    intro o ho r c hrc
+    simp only [nrun, List.mem_cons] at ho
+    rcases ho with rfl | ho
+    · exact hout r c hrc
+    · exact ih _ hinv o ho r c hrc
+
+theorem ncoherent_of_wf (t : NTable) (hwf : nwf t = true) (ops : List Op) :
+    AllCoherent (nrun t State.init ops) :=
+  ncoherent_of_wf_from t hwf ops State.init (ninv_init t)
+
+/-- the value of a call is a function of the stamps of its closure: two states that agree on
+the closure of `mi(a)` give the same fresh value (so `closure` is a sound dependency set) -/
+theorem current_depends_on_closure (t : NTable) (s s' : State) (mi a : Nat)
+    (h : ∀ x ∈ closure t (mi + 1) mi a, s.stamp x = s'.stamp x) :
+    t.current s mi a = t.current s' mi a :=
+  deepVal_congr t s.stamp s'.stamp (mi + 1) mi a h
+
+/-- **Bounded caches.** after an insertion no method holds more than `maxsize` entries -/
+theorem trimGo_bounded (k : Nat) : ∀ (c : List Entry) (cnt : Nat → Nat) (m : Nat), cnt m ≤ k →
+    ((trimGo k c cnt).filter (fun e => e.m == m)).length + cnt m ≤ k := by
+  intro c
+  induction c with
+  | nil => intro cnt m h; simpa [trimGo] using h
+  | cons e es ih =>
+    intro cnt m h
+    simp only [trimGo]
+    split
+    · rename_i hlt
+      by_cases hem : e.m = m
+      · subst hem
+        have := ih (fun m' => if m' = e.m then cnt m' + 1 else cnt m') e.m (by simp; omega)
+        simp only [if_true] at this
+        simp only [List.filter_cons, beq_self_eq_true, if_true, List.length_cons]
+        omega
+      · have hne : (e.m == m) = false := by simpa using hem
+        have := ih (fun m' => if m' = e.m then cnt m' + 1 else cnt m') m
+          (by simp [Ne.symm hem]; exact h)
+        simp only [if_neg (Ne.symm hem)] at this
+        simp only [List.filter_cons, hne]
+        simpa using this
+    · exact ih cnt m h
+
+theorem lru_bounded (k : Nat) (c : List Entry) (m : Nat) :
+    ((lruTrim (some k) c).filter (fun e => e.m == m)).length ≤ k := by
+  have := trimGo_bounded k c (fun _ => 0) m (Nat.zero_le _)
+  simpa [lruTrim] using this
+
+/-! non-vacuity: method 1 (keyed on counter 0 only) calls method 0 (keyed on counter 1, reads
+field 1); mutator 0 writes field 1 and bumps counter 1: the callee is coherent on its own, the
+caller is not — exactly the case "a cached method calling another cached method whose key
+covers different fields". -/
+def nToyBad : NTable :=
+  ⟨[⟨[], ⟨[1], []⟩, [1], []⟩, ⟨[], ⟨[0], [(0, 0)]⟩, [0], []⟩], [⟨[1], [1], []⟩], some 2⟩
+def nToyGood : NTable :=
+  ⟨[⟨[], ⟨[1], []⟩, [1], []⟩, ⟨[], ⟨[0], [(0, 0)]⟩, [0, 1], []⟩],
+   [⟨[1], [1], []⟩, ⟨[0], [0], []⟩], some 2⟩
+
+example : nwf nToyGood = true := by decide
+example : nwf nToyBad = false := by decide
+example : noffending nToyBad = [(1, 0, 0)] := by decide
+/-- the callee alone stays coherent, the caller returns the value computed before the change -/
+example : nrun nToyBad State.init [.query 1 0, .mutate 0, .query 0 0, .query 1 0] =
+    [some ([0, 0, 0, 0], [0, 0, 0, 0]), none, some ([0, 1], [0, 1]),
+     some ([0, 0, 0, 0], [0, 0, 0, 1])] := by decide
+example : AllCoherent (nrun nToyGood State.init [.query 1 0, .mutate 0, .query 0 0, .query 1 0]) :=
+  ncoherent_of_wf nToyGood (by decide) _
+/-- with two slots per method a third argument pattern evicts the least recently used one -/
+example : ((nquery nToyGood 1 (nquery nToyGood 1 (nquery nToyGood 1 State.init 0 0).state 0 1).state
+    0 2).state.cache.map (·.arg)) = [2, 1] := by decide
+
 end Pyunicorn.Memo
 
 /-! ### the tables of the current source -/
@@ -91,5 +182,27 @@ theorem coherent_all (name : String) (t : Table) (h : (name, t) ∈ allTables) (
   have := wf_all
   rw [List.all_eq_true] at this
   exact coherent_of_wf t (this (name, t) h) ops
+
+/-! #### round 3: the nested tables (methods as written) of the current source -/
+
+/-- no class has a cycle of cached methods, and in every class the key of every cached method
+covers — for the call without arguments and for the general call — everything the method *and
+the cached methods it calls* read, against every public mutator -/
+theorem nwf_all : allNTables.all (fun nt => nwf nt.2) = true := by decide +kernel
+
+/-- the flat tables (`allTables`, produced by the translator's transitive read analysis) contain
+the closure that the Lean model computes from the call edges, method by method: the two views
+of the source agree -/
+theorem flat_covers_nested_all :
+    (allNTables.zip allTables).all (fun p => p.1.1 == p.2.1 && flatCovers p.1.2 p.2.2) = true := by
+  decide +kernel
+
+/-- hence every history on every class is coherent on the machine with nested cached calls,
+argument patterns and bounded lru caches -/
+theorem ncoherent_all (name : String) (t : NTable) (h : (name, t) ∈ allNTables) (ops : List Op) :
+    AllCoherent (nrun t State.init ops) := by
+  have := nwf_all
+  rw [List.all_eq_true] at this
+  exact ncoherent_of_wf t (this (name, t) h) ops
 
 end Pyunicorn.Generated.StructC01
